@@ -1,17 +1,18 @@
-"""Composition of the Sync model with the scheduler-level machine (coq/Compose): the machine-level half of
-C04 ("threads blocked on a mutex do not occupy a worker").  Not a property of its own: `attach(ctx, n)` is
-called by C04's check (ATTACH table of tools/check.py); `./check COMPOSE` runs it alone.
+"""Composition of the blocking-protocol models with the scheduler-level machine (coq/Compose): "a blocked thread
+occupies no worker and is woken by exactly one insertion", proved once against an interface (GenericModel.v /
+GenericProofs.v) and instantiated for the Sync object (C04/C05/C09), the barrier (C06), the join counter (C07)
+and the uncond (C08).  Not a property of its own: `attach(ctx, n)` is called by the checks of C04, C06, C07, C08
+(ATTACH table of tools/check.py; the instance replayed is chosen by ctx.prop); `./check COMPOSE` runs all four.
 
-Proof side: coq/Properties_Compose.v (product invariant = both component invariants + LINK; blocked threads
-are parked; Sync steps happen on exactly one worker; PushTop enabled at push steps).
-Tie: controlled runs of mutex / condition-variable programs with `msnap 1`; BOTH projections of the same
-trace - the Sync projection (tools/trace.py sync_block: calls, returns, POINT ticks with the Sync words) and
+Proof side: coq/Properties_Compose.v.
+Tie: controlled runs with `msnap 1`; BOTH projections of the same trace - the protocol projection (tools/trace.py
+sync_block, tools/props/c06.py c06_block, c07.py jc_block, c08.py uncond_block: calls, returns, POINT ticks) and
 the machine projection (tools/machine_common.py: moves read off the trace, machine snapshots) - are merged in
-trace order and replayed through the extracted PRODUCT step (ocaml/driver_Compose.ml): a Sync step is
-accepted only on the worker that the machine component says runs that thread / that callback, the machine
-moves a synchronised step carries (pop + SaveCtx at a blocking step, EndCb at the end of a callback, PushTop
-at a push) are performed by the product step itself and therefore REMOVED from the machine projection, and
-the machine component must equal the library's cur / run queues at every trace line."""
+trace order and replayed through the extracted PRODUCT step (ocaml/driver_Compose.ml): a protocol step is
+accepted only on the worker that the machine component says runs that thread / that callback, the machine moves a
+synchronised step carries (pop + SaveCtx at a blocking step, EndCb at the end of a callback, PushTop at a push)
+are performed by the product step itself and therefore REMOVED from the machine projection, and the machine
+component must equal the library's cur / run queues at every trace line."""
 import os, re, json
 import vlib, trace
 import machine_common as mc
@@ -26,22 +27,14 @@ def build_driver():
     return vlib.build_driver("Compose", "Extract_Compose.v", "driver_Compose.ml", VFILES)
 
 
-def compose_block(case_text, r):
-    """merged driver input for one run; returns (lines, info) or raises ValueError if the program is outside
-    the product's domain (more than one Sync object group)"""
-    groups, nt = trace.sync_groups(case_text)
-    groups = [g for g in groups if g["mutex"]]
-    if len(groups) != 1 or groups[0]["felock"]:
-        raise ValueError("compose: exactly one mutex group expected")
-    g = groups[0]
-    names = set([g["mutex"]] + g["conds"])
-    nconds = max(1, len(g["conds"]))
+def merge(case_text, r, plines, psrc, begin, push_ids, names):
+    """merged driver input: the protocol projection (plines with their source events psrc) and the machine
+    projection of the same trace, in trace order; the moves carried by synchronised steps are removed from the
+    machine projection"""
     mlines, msrc, L = mc.machine_block(case_text, r["trace_text"])
-    nw = int(mlines[0].split()[1])
     idx_of_raw = {row[6]: i for i, row in enumerate(L)}
-    slines, ssrc = trace.sync_block(g, nt, r["events"])
     sync_at = {}
-    for ln, ev in zip(slines, ssrc):
+    for ln, ev in zip(plines, psrc):
         if ev is None:
             continue
         i = idx_of_raw.get(ev.raw)
@@ -52,14 +45,21 @@ def compose_block(case_text, r):
             s = "sync %d call %s" % (ev.w, " ".join(w[1:]))
         elif w[0] == "ret":
             s = "sync %d ret %s" % (ev.w, " ".join(w[1:]))
-        else:   # tick t ctx worker label val obs...
-            s = "sync %s tick %s %s %s" % (w[3], w[1], w[2], " ".join(w[4:]))
+        elif w[0] == "announce":
+            s = "sync %d announce %s" % (ev.w, w[1])
+        elif w[0] == "tick":
+            rest = w[3:]
+            if rest and rest[0].isdigit() and begin.startswith("begin sync"):
+                rest = rest[1:]                  # Sync's tick lines carry the worker themselves
+            s = "sync %d tick %s %s %s" % (ev.w, w[1], w[2], " ".join(rest))
+        else:
+            continue
         sync_at[i] = s
     per = {}
     for ln, i in zip(mlines, msrc):
         if i is not None:
             per.setdefault(i, []).append(ln)
-    out = ["begin sync %d %d %d" % (nw, nt, nconds)]
+    out = [begin]
     in_sync_cb = {}
     stats = {"blocking": 0, "cb_end": 0, "sync_push": 0, "free_moves": 0}
     for i, row in enumerate(L):
@@ -69,7 +69,7 @@ def compose_block(case_text, r):
         moves = [x for x in ms if not x.startswith("snap")]
         ends_sync_cb = (k == "E" and words and words[0] == "cb.leave" and in_sync_cb.get(w))
         if not ends_sync_cb:
-            out += snaps          # (at the cb.leave of a Sync callback the product has already returned into the hand)
+            out += snaps          # (at the cb.leave of a protocol callback the product has already returned into the hand)
         if i in sync_at:
             out.append(sync_at[i])
             if any(x.endswith(" SaveCtx") for x in moves):
@@ -77,7 +77,7 @@ def compose_block(case_text, r):
                 moves = [x for x in moves if not (x.startswith("autopop") or x.endswith(" SaveCtx"))]
                 in_sync_cb[w] = True
                 stats["blocking"] += 1
-            if k == "P" and words[0] in SYNC_PUSH and words[1] in names:
+            if k == "P" and words[0] in push_ids and words[1] in names:
                 moves = [x for x in moves if " PushTop " not in x]
                 stats["sync_push"] += 1
         if ends_sync_cb:
@@ -90,6 +90,62 @@ def compose_block(case_text, r):
     return out, stats
 
 
+def _nw_nt(case_text):
+    objs, threads, scripts, params = trace.parse_case(case_text)
+    return int(params.get("workers", "2")), (max(threads) + 1 if threads else 1)
+
+
+def compose_block(case_text, r):
+    """Sync instance; raises ValueError if the program is outside the product's domain"""
+    groups, nt = trace.sync_groups(case_text)
+    groups = [g for g in groups if g["mutex"]]
+    if len(groups) != 1 or groups[0]["felock"]:
+        raise ValueError("compose: exactly one mutex group expected")
+    g = groups[0]
+    names = set([g["mutex"]] + g["conds"])
+    nw, nt2 = _nw_nt(case_text)
+    slines, ssrc = trace.sync_block(g, nt, r["events"])
+    return merge(case_text, r, slines, ssrc, "begin sync %d %d %d" % (nw, nt, max(1, len(g["conds"]))), SYNC_PUSH, names)
+
+
+def barrier_block(case_text, r):
+    from props import c06
+    bs = c06.barriers_of(case_text)
+    nw, nt = _nw_nt(case_text)
+    if len(bs) != 1 or bs[0][2] != list(range(nt)):
+        raise ValueError("compose: one barrier whose participants are all threads 0..nt-1 expected")
+    name, N, parts = bs[0]
+    pl, ps = c06.c06_block(name, N, parts, r["events"])
+    return merge(case_text, r, pl, ps, "begin barrier %d %d %d" % (nw, nt, N), ("wakemanys.push",), {name})
+
+
+def jc_block(case_text, r):
+    from props import c07
+    jcs, nthreads = c07.jc_objects(case_text)
+    nw, nt = _nw_nt(case_text)
+    if not jcs:
+        raise ValueError("compose: a join counter expected")
+    # with several join counters the product is taken with the first one; blocking on the others = free machine moves
+    name, n = jcs[0]
+    pl, ps = c07.jc_block(name, n, nt, r["events"])
+    return merge(case_text, r, pl, ps, "begin jc %d %d %d" % (nw, nt, n), ("wakemany.push",), {name})
+
+
+def uncond_block(case_text, r):
+    from props import c08
+    objs, threads, _, _ = trace.parse_case(case_text)
+    us = [n for n, (k, _) in objs.items() if k == "uncond"]
+    nw, nt = _nw_nt(case_text)
+    if not us:
+        raise ValueError("compose: an uncond expected")
+    # with several unconds the product is taken with the first one; blocking on the others = free machine moves
+    pl, ps = c08.uncond_block(us[0], nt, r["events"])
+    return merge(case_text, r, pl, ps, "begin uncond %d %d" % (nw, nt), ("uncond.sig.push",), {us[0]})
+
+
+BLOCKS = {"sync": compose_block, "barrier": barrier_block, "jc": jc_block, "uncond": uncond_block}
+
+
 def validate(driver, lines):
     rc, out = vlib.sh([driver], input="\n".join(lines) + "\n", timeout=600)
     res = [l for l in out.split("\n") if l.startswith(("ok", "FAIL"))]
@@ -97,34 +153,70 @@ def validate(driver, lines):
 
 
 def oracle_blocked_parked(case_text, trace_text):
-    """independent statement of the clause on the implementation: at every trace line, a thread listed in the
-    sleep queue of the mutex / a condition variable (latest snapshot) is the current thread of no worker and
-    in no run queue (machine snapshot of the same line)"""
+    """independent statement of the clause on the implementation: at a POINT on a blocking object, a thread
+    listed in the object's sleep container in the snapshot of that very line (sleep queue q=[..] of a mutex /
+    condition / join counter, sleep stack stk=[..] of a barrier, published waiter th=.. of an uncond) is the
+    current thread of no worker and in no run queue (machine snapshot of the same line)"""
     objs, _, _, _ = trace.parse_case(case_text)
-    sleepq = {}
     lines = trace_text.split("\n")
     for n, line in enumerate(lines):
-        if line[:1] == "P":
-            head, _, snap = line.partition(" | ")
-            w = head.split()
-            obj = w[5] if len(w) > 5 else None
-            if obj in objs and objs[obj][0] in ("mutex", "cond"):
-                m = re.search(r"q=\[([^\]]*)\]", snap)
-                if m:
-                    sleepq[obj] = set(x for x in m.group(1).split(",") if x)
-        elif line[:2] == "M ":
-            m = re.match(r"M cur=\[(.*?)\] dq=\[(.*)\]$", line)
-            cur = set(c for c in m.group(1).split(",") if c.startswith("t"))
-            qs = set(t for q in re.findall(r"\[([^\[\]]*)\]", m.group(2)) for t in q.split())
-            for o, mem in sleepq.items():
-                bad = mem & (cur | qs)
-                # the snapshot of the queue is the one taken at the last POINT on that object: a thread dequeued
-                # and pushed since then legitimately shows up in a run queue; only flag it if the queue
-                # snapshot is from this very line
-                if bad and lines[n - 1][:1] == "P" and (" " + o + " ") in lines[n - 1].partition(" | ")[0] + " ":
-                    return "thread(s) %s are in the sleep queue of %s and at the same time current / in a run queue: %s" % (
-                        sorted(bad), o, line)
+        if line[:1] != "P" or n + 1 >= len(lines) or not lines[n + 1].startswith("M "):
+            continue
+        head, _, snap = line.partition(" | ")
+        w = head.split()
+        obj = w[5] if len(w) > 5 else None
+        if obj not in objs or objs[obj][0] not in ("mutex", "cond", "jc", "barrier", "uncond"):
+            continue
+        mem = set()
+        for key in ("q", "stk"):
+            m = re.search(r"\b%s=\[([^\]]*)\]" % key, snap)
+            if m:
+                mem |= set(x.strip() for x in m.group(1).split(",") if x.strip().startswith("t"))
+        m = re.search(r"\bth=(t\d+)", snap)
+        if m:
+            mem.add(m.group(1))
+        mm = re.match(r"M cur=\[(.*?)\] dq=\[(.*)\]$", lines[n + 1])
+        cur = set(c for c in mm.group(1).split(",") if c.startswith("t"))
+        qs = set(t for q in re.findall(r"\[([^\[\]]*)\]", mm.group(2)) for t in q.split())
+        bad = mem & (cur | qs)
+        if bad:
+            return "thread(s) %s are in the sleep container of %s and at the same time current / in a run queue: %s | %s" % (
+                sorted(bad), obj, line, lines[n + 1])
     return None
+
+
+def _msnap(text):
+    l = text.split("\n")
+    return "\n".join(l[:1] + ["msnap 1"] + l[1:])
+
+
+def gen_kind_cases(ctx, kind, n):
+    """cases of one instance; every case = {"text", "kind", ...}"""
+    r = ctx.rng
+    if kind == "sync":
+        return gen_cases(ctx, n)
+    out = []
+    if kind == "barrier":
+        from props import c06
+        for _ in range(n):
+            out.append({"text": _msnap(c06.gen_case(r, N=r.choice([2, 3, 5]))), "kind": kind})
+    elif kind == "jc":
+        from props import c07
+        while len(out) < n:
+            objs, threads = c07.gen_program(r)
+            out.append({"text": _msnap(trace.case_text(r.rng(1, 4), r.rng(1, 1 << 30), objs, threads, pswitch=r.choice([20, 35, 60, 85]))),
+                        "kind": kind})
+    elif kind == "uncond":
+        from props import c08
+        fams = ["handoff", "pingpong", "spsc", "relay", "chain", "twowaiters"]
+        for i in range(n):
+            workers = r.choice([1, 2, 2, 3, 4])
+            p, unsafe = c08.gen_program(r, fams[i % len(fams)], workers)
+            out.append({"text": _msnap(p.text(workers, r.rng(1, 1 << 30), r.choice([15, 35, 60, 85]))), "kind": kind})
+    return out
+
+
+KINDS_OF = {"C04": ["sync"], "C05": ["sync"], "C09": ["sync"], "C06": ["barrier"], "C07": ["jc"], "C08": ["uncond"]}
 
 
 def gen_cases(ctx, n):
@@ -141,7 +233,7 @@ def gen_cases(ctx, n):
             objs, threads, ex = c04.gen_mutex_program(r, N, 1)
             expect = {"x0": ex[0]}
         text = trace.case_text(nw, r.rng(1, 1 << 30), objs, threads, pswitch=ps, extra={"msnap": "1"})
-        cases.append({"text": text, "kind": "compose", "N": N, "workers": nw, "pswitch": ps, "expect": expect})
+        cases.append({"text": text, "kind": "sync", "N": N, "workers": nw, "pswitch": ps, "expect": expect})
     return cases
 
 
@@ -172,10 +264,13 @@ def attach(ctx, n_cases=40, prove=True):
     os.chmod(mine + ".tmp", 0o755)
     os.replace(mine + ".tmp", mine)
     drv = build_driver()
-    cases = gen_cases(ctx, n_cases)
+    kinds = KINDS_OF.get(ctx.prop, ["sync", "barrier", "jc", "uncond"])
+    cases = []
+    for kd in kinds:
+        cases += gen_kind_cases(ctx, kd, max(10, n_cases // len(kinds)) if len(kinds) > 1 else n_cases)
     wd = os.path.join(ctx.dir, "compose_runs")
     tot = {"sync_steps": 0, "free_moves": 0, "snapshots": 0, "blocking": 0, "cb_end": 0, "sync_push": 0}
-    fails, oracle_fails, verdicts = [], [], {}
+    fails, oracle_fails, verdicts, per_kind, skipped = [], [], {}, {}, 0
     for i, c in enumerate(cases):
         try:
             r = trace.run_case(mine, c["text"], wd, "k%04d" % i, timeout=60)
@@ -190,11 +285,15 @@ def attach(ctx, n_cases=40, prove=True):
         if v != "DONE" or r["rc"] != 0:
             oracle_fails.append((c, "run did not complete: verdict %s rc %s %s" % (r["verdict"], r["rc"], r["out"][-200:].strip())))
             continue
-        o = c04.oracle(c, r) or oracle_blocked_parked(c["text"], r["trace_text"]) or mc.oracle_single_place(r["trace_text"])
+        o = (c04.oracle(c, r) if c["kind"] == "sync" else None) or oracle_blocked_parked(c["text"], r["trace_text"]) \
+            or mc.oracle_single_place(r["trace_text"])
         if o:
             oracle_fails.append((c, o))
         try:
-            lines, st = compose_block(c["text"], r)
+            lines, st = BLOCKS[c["kind"]](c["text"], r)
+        except ValueError:
+            skipped += 1
+            continue
         except Exception as ex:                      # noqa: projection of a damaged trace
             fails.append((c, "FAIL 0 projection failed: %s" % ex, []))
             continue
@@ -206,11 +305,15 @@ def attach(ctx, n_cases=40, prove=True):
             tot["snapshots"] += int(w[3])
             for k in ("blocking", "cb_end", "sync_push"):
                 tot[k] += st[k]
+            pk = per_kind.setdefault(c["kind"], {"runs": 0, "protocol_steps": 0, "blocking_steps": 0})
+            pk["runs"] += 1
+            pk["protocol_steps"] += int(w[1])
+            pk["blocking_steps"] += st["blocking"]
         else:
             k = int(res.split()[1])
             fails.append((c, res, lines[max(0, k - 10):k + 1]))
     summ = {"compose_cases": len(cases), "compose_disagreements": len(fails), "compose_oracle_failures": len(oracle_fails),
-            "compose_verdicts": verdicts}
+            "compose_verdicts": verdicts, "compose_per_instance": per_kind, "compose_skipped_outside_domain": skipped}
     summ.update({"compose_" + k: v for k, v in tot.items()})
     ctx.cov.setdefault("correspondence", {})["compose"] = summ
     ctx.cov["trusted_base"] += ["product tie: tools/props/compose.py (merge of the two projections of one trace; the moves carried by "
@@ -223,10 +326,10 @@ def attach(ctx, n_cases=40, prove=True):
                                               "level": "library"}, found=True)
     elif fails:
         c, res, tail = fails[0]
-        ctx.violation("compose-correspondence", "product (Sync x machine) and library disagree on %d of %d runs; first: %s" % (
-                      len(fails), len(cases), res[:300]),
-                      {"theorem_or_correspondence": "correspondence coq/Compose/ComposeModel.v <-> src/myth_sync_func.h block/wake helpers "
-                       "+ scheduler", "case": c, "compose": True, "observed": res, "model_input_tail": tail}, found=False)
+        ctx.violation("compose-correspondence", "product (%s x machine) and library disagree on %d of %d runs; first: %s" % (
+                      c.get("kind", "sync"), len(fails), len(cases), res[:300]),
+                      {"theorem_or_correspondence": "correspondence coq/Compose/GenericModel.v + Instances.v <-> src/myth_sync_func.h block/wake "
+                       "helpers + scheduler", "case": c, "compose": True, "observed": res, "model_input_tail": tail}, found=False)
     if broken:
         ctx.violation("proof", "composition theorem(s) no longer check: " + ", ".join(broken),
                       {"theorem_or_correspondence": ", ".join(broken)}, found=False)
@@ -248,9 +351,10 @@ def replay(ctx, path):
     r = trace.run_case(exe, c["text"], os.path.join(ctx.dir, "replay"), "r")
     print("verdict:", r["verdict"])
     try:
-        lines, st = compose_block(c["text"], r)
+        lines, st = BLOCKS[c.get("kind", "sync")](c["text"], r)
         print("product replay:", validate(drv, lines), st)
     except Exception as ex:                          # noqa
         print("projection failed:", ex)
-    print("oracle:", c04.oracle(c, r) or oracle_blocked_parked(c["text"], r["trace_text"]) or "holds")
+    print("oracle:", (c04.oracle(c, r) if c.get("kind", "sync") == "sync" else None)
+          or oracle_blocked_parked(c["text"], r["trace_text"]) or "holds")
     return 0
